@@ -104,6 +104,10 @@ pub fn run_case(_ctx: &Ctx, case: &Value, tag: usize, rep: &mut Report, mb: &mut
         let ws: Vec<String> = wb.words.iter().map(|x| hex_or_underscore(x)).collect();
         mb.push(format!("eng init {tag} {} {}", ws.join(","), wb.eos), "ok".into(), tag);
     }
+    // grammars of the M5 fragment: the forced bytes of the Lean byte-level engine (exhaustive probe over the model
+    // of lexer + rows) must be the implementation's; the model is vocabulary-free, so the bytes committed so far suffice
+    let lx_id = if has_model { None } else { crate::lx::define_model(&b, tag, rep, mb).map(|x| x.0) };
+    if lx_id.is_some() { rep.count("cases.with_lexer_model"); }
     let mut bytes: Vec<u8> = vec![];
     let mut toks: Vec<u32> = vec![];
     for step in 0..steps {
@@ -114,6 +118,10 @@ pub fn run_case(_ctx: &Ctx, case: &Value, tag: usize, rep: &mut Report, mb: &mut
         let ff = m.compute_ff_bytes();
         if has_model {
             mb.push("eng ff".into(), format!("ok {}", hex_or_underscore(&ff)), tag);
+        }
+        if let Some(id) = lx_id {
+            mb.push(format!("lx ff {id} {}", hex_or_underscore(&bytes)), format!("ok {}", hex_or_underscore(&ff)), tag);
+            rep.count("states.ff_vs_lexer_model");
         }
         if !ff.is_empty() {
             rep.count("states.with_forced_bytes");
